@@ -128,6 +128,17 @@ impl FdtReceiver {
         }
     }
 
+    /// Duration since the last packet of this FDT instance has been received,
+    /// None when the FDT is not being received anymore
+    pub fn last_activity_duration_since(
+        &self,
+        earlier: std::time::Instant,
+    ) -> Option<std::time::Duration> {
+        self.obj
+            .as_ref()
+            .map(|obj| obj.last_activity_duration_since(earlier))
+    }
+
     pub fn get_server_time(&self, now: std::time::SystemTime) -> std::time::SystemTime {
         if let Some(offset) = self.sender_current_time_offset {
             if self.sender_current_time_late {
